@@ -329,7 +329,7 @@ func c20Do(env *interp.ExecEnv, o c20Op) (failed bool, note string) {
 	return
 }
 
-var c20Names = []string{"a", "A", "b", "IFS", "@", "*", "#", "?", "-", "$", "!", "0", "1", "2", "10", "11", "12"}
+var c20Names = []string{"a", "A", "b", "HOME", "IFS", "@", "*", "#", "?", "-", "$", "!", "0", "1", "2", "10", "11", "12"}
 
 func c20Ops() []c20Op {
 	var ops []c20Op
@@ -362,6 +362,15 @@ func c20Ops() []c20Op {
 			ops = append(ops, c20Op{Kind: "expand", Name: "a", Val: op, Inner: inner, Text: "${a" + op + inner + "}"})
 		}
 	}
+	// tilde expansion reads HOME and must not write it
+	for _, t := range []string{"~", "~/a", "a:~", "${HOME=w}"} {
+		o := c20Op{Kind: "expand", Name: "HOME", Val: "", Text: t}
+		if strings.HasPrefix(t, "${") {
+			o.Val = "="
+		}
+		ops = append(ops, o)
+	}
+	ops = append(ops, c20Op{Kind: "set", Name: "HOME", Val: "/h"}, c20Op{Kind: "unset", Name: "HOME"})
 	// an assigning expansion that is not the whole word: text, another expansion or quotes around it
 	for _, t := range []string{"pre-${a:=w}", "$0${a:=w}", "\"dir/${a:=w}\"", "$@${a:=w}", "${a:=w}post", "pre-${a:=w}-${A:=w}"} {
 		ops = append(ops, c20Op{Kind: "expand", Name: "a", Val: ":=", Text: t})
